@@ -21,7 +21,10 @@ TEMPLATES = [
     ('exprnone',  ['T({k})']),
     ('value',     ['V({k})']),
     ('print',     ['P({k})']),
-    ('printind',  ['PI({k})']),                  # output whose every line starts with blanks
+    ('printind',  ['PI({k})']),
+    # writes through a reference to sys.stdout taken by the *first* such statement of the program
+    ('useout',    ["import sys; emit = globals().get('emit'); emit = emit if callable(emit) else sys.stdout.write; "
+                   "x{k} = emit('u{k}\\n'); T({k})"]),                  # output whose every line starts with blanks
     ('aug',       ['w = 0', 'w += T({k}, 1)']),
     ('import',    ['import os as o{k}; T({k})']),
     ('tcomment',  ['T({k})  # trailing comment']),
@@ -40,6 +43,7 @@ TEMPLATES = [
     ('def',       ['def f{k}(a=T({k})):', '    return a', 'T(f{k}(({k}, 1)))']),
     ('class',     ['class K{k}:', '    a = T({k})', '', '    def m(self):', '        return 1']),
     ('deco',      ['@D({k})', 'def g{k}():', '    pass']),
+    ('decoclass', ['@D({k})', 'class Q{k}:', '    pass']),
     ('lambda',    ['l{k} = lambda: T({k})', 'l{k}()']),
     ('del',       ['d{k} = T({k})', 'del d{k}']),
     ('await',     ['import asyncio', 'async def c{k}():', '    return T({k}, 5)', 'a{k} = await c{k}()']),
@@ -142,13 +146,16 @@ def ref_exec(stmts, extra_pre=''):
     exec(PRE + extra_pre, ns)
     outs = []
     raised = ns['__raised__'] = {}
-    for si, stmt_lines in enumerate(stmts):
-        src = '\n'.join(stmt_lines) + '\n'
-        buf = io.StringIO()
-        tree = ast.parse(src)
-        val = NOVAL
-        try:
-            with contextlib.redirect_stdout(buf):
+    # one stream for the whole program (a program may keep a reference to sys.stdout and write through it
+    # later); the output of a statement is what was appended while it ran
+    buf = io.StringIO()
+    with contextlib.redirect_stdout(buf):
+        for si, stmt_lines in enumerate(stmts):
+            src = '\n'.join(stmt_lines) + '\n'
+            pos = len(buf.getvalue())
+            tree = ast.parse(src)
+            val = NOVAL
+            try:
                 if len(tree.body) == 1 and isinstance(tree.body[0], ast.Expr):
                     code = compile(src.strip(), '<ref>', 'eval', flags=ast.PyCF_ALLOW_TOP_LEVEL_AWAIT)
                     r = eval(code, ns)
@@ -160,11 +167,11 @@ def ref_exec(stmts, extra_pre=''):
                     r = eval(code, ns)
                     if code.co_flags & CO_COROUTINE:
                         asyncio.run(r)
-        except Exception as ex:
-            import traceback
-            raised[si] = traceback.format_exception_only(type(ex), ex)[-1]
-            val = NOVAL
-        outs.append((buf.getvalue(), val))
+            except Exception as ex:
+                import traceback
+                raised[si] = traceback.format_exception_only(type(ex), ex)[-1]
+                val = NOVAL
+            outs.append((buf.getvalue()[pos:], val))
     return ns, outs
 
 
